@@ -45,9 +45,13 @@ fn wired_step(w: &mut Wired, cfg: &Cfg, op: &Op, t: usize, m: f64, got: &Out) ->
     let k = cfg.mult;
     let near = |a: f64, b: f64, tol: f64| a == b || (a - b).abs() <= tol;
     match (w, op) {
-        (Wired::Bb(sma, sd), Op::S(x)) => {
-            let a = sma.next(*x);
-            let s = sd.next(*x);
+        (Wired::Bb(sma, sd), op @ (Op::S(_) | Op::B(_))) => {
+            // bars: the public parts are fed the very same bar (their own bar paths read close)
+            let (a, s) = match op {
+                Op::S(x) => (sma.next(*x), sd.next(*x)),
+                Op::B(b) => (sma.next(b), sd.next(b)),
+                _ => unreachable!(),
+            };
             if !near(got.v[0], a, tau * m) {
                 return Some(Err(format!("average {} vs standalone SMA {}", f2s(got.v[0]), f2s(a))));
             }
@@ -78,8 +82,12 @@ fn wired_step(w: &mut Wired, cfg: &Cfg, op: &Op, t: usize, m: f64, got: &Out) ->
             let want = ema.next(r);
             Some(if near(got.v[0], want, tau * m) { Ok(()) } else { Err(format!("{} vs EMA(TrueRange) {}", f2s(got.v[0]), f2s(want))) })
         }
-        (Wired::Macd(f, s, sig), Op::S(x)) => {
-            let line = f.next(*x) - s.next(*x);
+        (Wired::Macd(f, s, sig), op @ (Op::S(_) | Op::B(_))) => {
+            let line = match op {
+                Op::S(x) => f.next(*x) - s.next(*x),
+                Op::B(b) => f.next(b) - s.next(b),
+                _ => unreachable!(),
+            };
             let sg = sig.next(line);
             let want = [line, sg, line - sg];
             for j in 0..3 {
@@ -89,9 +97,12 @@ fn wired_step(w: &mut Wired, cfg: &Cfg, op: &Op, t: usize, m: f64, got: &Out) ->
             }
             Some(Ok(()))
         }
-        (Wired::Ppo(f, s, sig), Op::S(x)) => {
-            let fv = f.next(*x);
-            let sv = s.next(*x);
+        (Wired::Ppo(f, s, sig), op @ (Op::S(_) | Op::B(_))) => {
+            let (fv, sv) = match op {
+                Op::S(x) => (f.next(*x), s.next(*x)),
+                Op::B(b) => (f.next(b), s.next(b)),
+                _ => unreachable!(),
+            };
             if sv == 0.0 || !sv.is_finite() {
                 // keep the signal EMA in step, but make no claim
                 let _ = sig.next((fv - sv) / sv * 100.0);
@@ -215,6 +226,12 @@ pub fn run(ctx: &Ctx) -> CheckResult {
             jobs.push((Cfg::p2(Kind::SlowStoch, n, e), bar_ops.clone(), db));
         }
     }
+    // close-only composites driven with bars whose close is not mid-range (the grid has such bars)
+    for &n in &[1usize, 2, 3, 5] {
+        jobs.push((Cfg::pm(Kind::Bb, n, 2.0), bar_ops.clone(), db));
+        jobs.push((Cfg::p3(Kind::Macd, n, n + 2, 2), bar_ops.clone(), db - 1));
+        jobs.push((Cfg::p3(Kind::Ppo, n, n + 2, 2), bar_ops.clone(), db - 1));
+    }
     // the same composites in a tiny price unit (2^-60): absolute epsilons / thresholds in a composite or a part show here
     let tiny_s = s_ops(&S_TINY);
     let tiny_b = b_ops(&scale_bars(&b_grid(), TINY));
@@ -264,6 +281,6 @@ pub fn run(ctx: &Ctx) -> CheckResult {
     res.absorb(merge_jobs(outs));
     res.extra.insert("composite_configurations".into(), json!(jobs.len()));
     res.rule = "case = (composite configuration, stream): the real composite and separately constructed public parts (SMA, SD, EMA, FastStochastic, TrueRange, ATR, Minimum, Maximum, MAD) are fed the same stream; at every step the composite's outputs must equal the documented combination of the parts within tau(t)*M (variances for the Bollinger half-width, times the condition number for CCI/PPO, gated at 1e6); non-trivial = stream longer than the window".into();
-    res.bounds = format!("BB/KC/CE periods {singles:?} x multipliers {{2,0,0.5,3}}, ATR, CCI, SLOW_STOCH (n x {{1,3}}), MACD/PPO over 6 period triples; all 9^{ds} mixed-sign/rough scalar streams and all 10^{db} valid-bar streams (side multipliers 1-2 levels shallower); the positive scalar / bar alphabets in a 2^-60 price unit for periods {{1,2,3,5}}");
+    res.bounds = format!("BB/KC/CE periods {singles:?} x multipliers {{2,0,0.5,3}}, ATR, CCI, SLOW_STOCH (n x {{1,3}}), MACD/PPO over 6 period triples; all 9^{ds} mixed-sign/rough scalar streams and all 10^{db} valid-bar streams (BB, MACD and PPO are driven with bars as well as scalars) (side multipliers 1-2 levels shallower); the positive scalar / bar alphabets in a 2^-60 price unit for periods {{1,2,3,5}}");
     res
 }
